@@ -247,8 +247,18 @@ type rvm struct {
 	data     [][]byte
 	alt      [][]byte
 	child    bool
-	gasExact bool // false once gas can no longer be predicted from the documented model (child VM ended in an error)
+	gasExact bool // false once gas can no longer be predicted from the documented model (a predicate inside a predicate aborted with its unpaid result possibly held)
 	steps    int
+	predEnd  class // how the last CHECKPREDICATE predicate run by this machine stopped ("" if none)
+	// When an instruction aborts on its final memory charge, the documented model does not say
+	// whether its result has already been placed on the stack (held, never paid for) or not.
+	// Both readings are kept: the stacks are left in the "placed" reading, abortLo is the memory
+	// the machine holds in the "not placed" reading (abortAmbiguous says they differ).
+	abortLo        int64
+	abortAmbiguous bool
+	// gasSlack: the implementation's gas may be lower than limit by up to this much (a predicate
+	// aborted ambiguously in the last instruction executed). Only ever set on a top-level machine.
+	gasSlack int64
 	// observations
 	lshiftTrunc int
 	childExp    int // expansion opcodes executed inside a predicate of a version-1 transaction
@@ -341,7 +351,12 @@ func (m *rvm) step() class {
 		m.pc = next
 		return cOK
 	}
+	if m.gasSlack > 0 {
+		m.gasExact = false // an instruction runs on a limit that is only known up to the slack
+	}
 	before := mem(m.data) + mem(m.alt)
+	dataBefore := append([][]byte(nil), m.data...)
+	altBefore := append([][]byte(nil), m.alt...)
 	ownMem := false
 	if cl := m.exec(op, imm, &next, &ownMem); cl != cOK {
 		return cl
@@ -350,6 +365,8 @@ func (m *rvm) step() class {
 		delta := mem(m.data) + mem(m.alt) - before
 		if delta > 0 {
 			if cl := m.charge(delta); cl != cOK {
+				m.abortLo = memKept(dataBefore, m.data) + memKept(altBefore, m.alt)
+				m.abortAmbiguous = m.abortLo != mem(m.data)+mem(m.alt)
 				return cl
 			}
 		} else {
@@ -358,6 +375,16 @@ func (m *rvm) step() class {
 	}
 	m.pc = next
 	return cOK
+}
+
+// memKept: memory of the items of a stack that an instruction left alone (the common bottom
+// part of the stack before and after it).
+func memKept(before, after [][]byte) int64 {
+	var n int64
+	for i := 0; i < len(before) && i < len(after) && bytes.Equal(before[i], after[i]); i++ {
+		n += 8 + int64(len(before[i]))
+	}
+	return n
 }
 
 func (m *rvm) need(n int) class {
@@ -1178,18 +1205,47 @@ func (m *rvm) checkPredicate(ownMem *bool) class {
 	ch := &rvm{e: m.e, prog: pred, limit: limit, child: true, gasExact: true}
 	ch.data = append([][]byte{}, m.data[l-n:]...)
 	m.data = m.data[:l-n]
+	// what the predicate is given: its run limit and the memory of the items moved to it
+	given := limit + mem(ch.data)
 	ccl := ch.run()
 	m.lshiftTrunc += ch.lshiftTrunc
 	m.childExp += ch.childExp
 	m.steps += ch.steps
-	if ccl != cOK || !ch.gasExact {
+	m.predEnd = ccl
+	// What a predicate holds when it aborts follows from the model used everywhere else in this
+	// file: the execution cost is charged first, operands are taken (and are gone) in order from
+	// the top, an abort leaves the rest alone; the one open point (result placed or not when the
+	// final memory charge fails) is carried as two readings below.
+	if !ch.gasExact {
 		m.gasExact = false
 	}
 	res := boolBytes(ccl == cOK && !ch.falseResult())
 	m.push(res)
-	// 256 charged up front, 192 of it returned; whatever the child did not use and
-	// what it left on its stacks comes back; operands are refunded, the result is paid.
-	net := -192 - ch.limit - mem(ch.data) - mem(ch.alt) - operands + (8 + int64(len(res)))
+	// Refund rule: the predicate hands back what it holds when it stops - its unused run limit
+	// (nothing after a run-limit abort) and the memory of the items on BOTH its stacks - but never
+	// more than it was given. An instruction that aborted on its memory charge may or may not
+	// have placed its (unpaid) result: refund is the "placed" reading, refundLo the other one.
+	refund := ch.limit + mem(ch.data) + mem(ch.alt)
+	refundLo := refund
+	if ccl == cRunLimit && ch.abortAmbiguous {
+		refundLo = ch.limit + ch.abortLo
+	}
+	if refund > given {
+		refund = given
+	}
+	if refundLo > given {
+		refundLo = given
+	}
+	if slack := refund - refundLo; slack > 0 {
+		if m.child {
+			m.gasExact = false // the ambiguity would have to be carried through the rest of a predicate
+		} else {
+			m.gasSlack += slack
+		}
+	}
+	// 256 charged up front, 192 of it returned; the refund comes back; operands are refunded,
+	// the result is paid.
+	net := -192 - refund - operands + (8 + int64(len(res)))
 	if net > 0 {
 		return m.charge(net)
 	}
